@@ -122,10 +122,11 @@ def prove1(pc, goal, timeout_ms=20000, tier='quick', want_model=True):
     if r == z3.sat:
         return Verdict('refuted', s.model() if want_model else None, ms, 'z3-5.1')
     # unknown: other back ends
-    r2, ms2 = cvc5_check(fs, max(10, timeout_ms // 1000))
+    budget = 8 if tier == 'quick' else max(10, timeout_ms // 1000)
+    r2, ms2 = cvc5_check(fs, budget)
     if r2 == 'unsat':
         return Verdict('proved', None, ms + ms2, 'cvc5-1.0.3 (z3 unknown)')
-    r3, ms3 = z3old_check(fs, max(10, timeout_ms // 1000))
+    r3, ms3 = z3old_check(fs, budget)
     if r3 == 'unsat':
         return Verdict('proved', None, ms + ms2 + ms3, 'z3-4.8.12 (z3-5.1, cvc5 unknown)')
     if r2 == 'sat' or r3 == 'sat':
